@@ -69,6 +69,7 @@ struct WmmMeta {
   double min_time = 1900, max_time = 2100, min_height = -1e4, max_height = 1e6;
   int norm = 1;                        // 0 = full, 1 = schmidt, -1 = keyword omitted (default schmidt)
   std::vector<std::string> extra_lines;   // appended verbatim
+  std::string signature_suffix;           // text after the version on the signature line (the readers stop at the first blank)
 };
 
 inline bool write_text(const std::string& file, const std::string& txt) {
@@ -78,7 +79,7 @@ inline bool write_text(const std::string& file, const std::string& txt) {
 }
 
 inline std::string wmm_text(const std::string& name, const WmmMeta& m) {
-  std::string t = "WMMF-" + std::to_string(m.version) + "\n# synthetic magnetic model written by ref_modelfiles.hpp\n";
+  std::string t = "WMMF-" + std::to_string(m.version) + m.signature_suffix + "\n# synthetic magnetic model written by ref_modelfiles.hpp\n";
   t += "Name            " + (m.name.empty() ? name : m.name) + "\n";
   t += "Description     " + m.description + "\nReleaseDate     " + m.date + "\n";
   t += "Radius          " + num17(m.radius) + "\n";
@@ -111,9 +112,10 @@ struct EgmMeta {
   bool write_height_offset = true, write_corr_mult = true;
   int norm = 0;                        // 0 = full, 1 = schmidt, -1 = keyword omitted (default full)
   std::vector<std::string> extra_lines;
+  std::string signature_suffix;        // text after the version on the signature line
 };
 inline std::string egm_text(const std::string& name, const EgmMeta& m) {
-  std::string t = "EGMF-1\n# synthetic gravity model written by ref_modelfiles.hpp\n";
+  std::string t = "EGMF-1" + m.signature_suffix + "\n# synthetic gravity model written by ref_modelfiles.hpp\n";
   t += "Name            " + (m.name.empty() ? name : m.name) + "\n";
   t += "Description     " + m.description + "\nReleaseDate     " + m.date + "\n";
   t += "ModelRadius     " + num17(m.model_radius) + "\nModelMass       " + num17(m.model_mass) + "\n";
